@@ -607,6 +607,8 @@ static void run_case(const std::string& id, bool newxta, std::vector<Cmd>& cmds)
                 else if (c.arg == "errors") { dump_errs("error", doc->get_errors()); dump_errs("warning", doc->get_warnings()); }
                 else if (c.arg == "supported") { auto& s = doc->get_supported_methods(); printf("supported symbolic=%d stochastic=%d concrete=%d\n", s.symbolic, s.stochastic, s.concrete); }
                 else if (c.arg == "wdoc") dump_wdoc(*doc);
+                else if (c.arg == "flags") printf("flags stopwatch=%d strictinv=%d strictlow=%d urgenttrans=%d dynamic=%d\n", doc->has_stop_watch(), doc->has_strict_invariants(),
+                                                  doc->has_strict_lower_bound_on_controllable_edges(), doc->has_urgent_transition(), doc->has_dynamic_templates());
                 else if (c.arg == "instances") {
                     // every INSTANCE symbol of the global frame in declaration order (templates and partial instantiations), then the processes
                     frame_t g = doc->get_globals().frame;
